@@ -21,6 +21,7 @@ a `*` whose result type is Eigen::Product is a matrix product.
 Lazy expression templates (`const auto w = a.array() * 2`) are evaluated eagerly; a use after one of the operands changed
 raises Unsupported (the eager value would differ from Eigen's lazy evaluation).
 """
+import itertools
 import re
 
 import astload
@@ -50,12 +51,11 @@ class AV:
     """array value: list of coefficient terms (one in generic mode), length term, dependencies for the lazy check"""
     s = 'Array'
 
-    STAMP = [0]
+    STAMP = itertools.count(1)          # next() of a count is atomic: spec construction runs in threads
 
     def __init__(self, c, n, deps=None, kind='Real'):
         self.c, self.n, self.deps, self.kind = list(c), n, dict(deps or {}), kind
-        AV.STAMP[0] += 1
-        self.stamp = AV.STAMP[0]       # identifies this content: a stored array gets a new stamp on every write / merge
+        self.stamp = next(AV.STAMP)     # identifies this content: a stored array gets a new stamp on every write / merge
 
     @property
     def t(self):
@@ -71,13 +71,29 @@ class MV:
 
     def __init__(self, m, deps=None):
         self.m, self.deps = [list(r) for r in m], dict(deps or {})
-        AV.STAMP[0] += 1
-        self.stamp = AV.STAMP[0]
+        self.stamp = next(AV.STAMP)
         self.rows, self.cols = len(self.m), len(self.m[0]) if self.m else 0
 
     @property
     def t(self):
         return ' ; '.join(' , '.join(r) for r in self.m)
+
+
+class LamV:
+    """a lambda held in a local variable: called by inlining its body (by-reference captures read the caller's environment)"""
+    s, c = 'Lambda', None
+
+    def __init__(self, node):
+        self.node = node
+        self.t = f'lambda@{node.get("id")}'
+
+
+class TupleV:
+    s, c = 'Tuple', None
+
+    def __init__(self, items):
+        self.items = list(items)
+        self.t = '<' + ' , '.join(i.t for i in items) + '>'
 
 
 def real_of(wp, v):
@@ -126,6 +142,13 @@ def _fold(p):
         if a is None or b is None:
             return None
         return 'true' if {'<': a < b, '<=': a <= b, '>': a > b, '>=': a >= b, '=': a == b}[op] else 'false'
+    if op == 'ite' and len(p) == 4:
+        c = _fold(p[1])
+        if c == 'true':
+            return _fold(p[2])
+        if c == 'false':
+            return _fold(p[3])
+        return None
     if op == 'not':
         x = _fold(p[1])
         return {'true': 'false', 'false': 'true'}.get(x)
@@ -191,6 +214,8 @@ class EigWP(IdEnvWP):
             (r'^max\|', self.h_minmax(rmax)), (r'^min\|', self.h_minmax(rmin)),
             (r'^is_pos_target\|', lambda w, n, a, c: V(f'(> {real_of(w, w.ev(a[0]))} 0.0)', 'Bool', 'bool')),
             (r'^epsilon\|', lambda w, n, a, c: w.epsilon()),
+            (r'^signbit\|', lambda w, n, a, c: V(f'(< {real_of(w, w.ev(a[0]))} 0.0)', 'Bool', 'bool')),     # reals: no negative zero
+            (r'^make_tuple\|', lambda w, n, a, c: TupleV([w.ev(x) for x in a])),
             (r'^make_random_vector\|', self.h_random), (r'^make_random_matrix\|', self.h_random), (r'^identity\|', self.h_identity),
         ]
         self.randoms = 0
@@ -300,13 +325,9 @@ class EigWP(IdEnvWP):
             if len(vals) < 2:
                 raise Unsupported(f'{wp.name}: std::max/min with {len(vals)} operand(s)')
             if all(v.s == 'Int' for v in vals):
-                fi = (lambda a, b: f'(ite (>= {a} {b}) {a} {b})') if f is rmax else (lambda a, b: f'(ite (<= {a} {b}) {a} {b})')
                 r = vals[0].t
                 for v in vals[1:]:
-                    r = fold(fi(r, v.t)) if lit_int(r) is not None and lit_int(v.t) is not None else fi(r, v.t)
-                    if lit_int(vals[0].t) is not None and lit_int(v.t) is not None:
-                        a, b = lit_int(vals[0].t), lit_int(v.t)
-                        r = nvwp.lit(max(a, b) if f is rmax else min(a, b))
+                    r = fold(f'(ite ({">=" if f is rmax else "<="} {r} {v.t}) {r} {v.t})')
                 return V(r, 'Int', 'long')
             r = real_of(wp, vals[0])
             for v in vals[1:]:
@@ -407,6 +428,21 @@ class EigWP(IdEnvWP):
 
     # ---------------------------------------------------------------------------------------------- declarations
     def decl_hook(self, wp, v, init):
+        if v.get('kind') == 'DecompositionDecl':
+            val = self.ev(init[0])
+            names = [b['name'] for b in v.get('inner', []) if b.get('kind') == 'BindingDecl']
+            if not isinstance(val, TupleV) or len(val.items) != len(names):
+                raise Unsupported(f'{self.name}: structured binding of something that is not a tuple of {len(names)}')
+            for nm, item in zip(names, val.items):
+                self.env[nm] = item
+            return True
+        if init and unwrap(init[0]).get('kind') == 'LambdaExpr':
+            lam = unwrap(init[0])
+            caps = astload.lambda_captures(lam)
+            if any((not c['this']) and not c['byref'] for c in caps):
+                raise Unsupported(f'{self.name}: lambda {v["name"]} with by-copy captures')
+            self.env[v['name']] = LamV(lam)
+            return True
         try:
             self.sort_of(v['type'])
             scalar = True
@@ -438,7 +474,7 @@ class EigWP(IdEnvWP):
                     out[k] = a
                 else:
                     out[k] = AV([ITE(c, x, y) for x, y in zip(a.c, b.c)], a.n)
-            elif isinstance(a, MV) or isinstance(b, MV) or isinstance(a, AV) or isinstance(b, AV):
+            elif isinstance(a, (MV, AV, LamV, TupleV)) or isinstance(b, (MV, AV, LamV, TupleV)):
                 if a is not b and a.t != b.t:
                     raise Unsupported(f'{self.name}: merging class-typed values of {k}')
                 out[k] = a
@@ -620,9 +656,19 @@ class EigWP(IdEnvWP):
             o = self.ev(obj)
             if not isinstance(o, MV):
                 return None
-            r = lit_int(self.ev(args[0]).t)
-            if r is None or not (0 <= r < o.rows):
-                raise Unsupported(f'{self.name}: row() with a symbolic / out-of-range index')
+            it = self.ev(args[0]).t
+            r = lit_int(it)
+            if r is None:
+                self.oblige('matrix row index within bounds', f'(and (<= 0 {it}) (< {it} {o.rows}))', n)
+                cols = []
+                for c in range(o.cols):
+                    t = o.m[-1][c]
+                    for k in range(o.rows - 2, -1, -1):
+                        t = ITE(f'(= {it} {k})', o.m[k][c], t)
+                    cols.append(t)
+                return AV(cols, str(o.cols), o.deps)
+            if not (0 <= r < o.rows):
+                raise Unsupported(f'{self.name}: row() with an out-of-range index')
             return AV(o.m[r], str(o.cols), o.deps)
         return None
 
@@ -681,6 +727,8 @@ class EigWP(IdEnvWP):
         args = inner[1:]
         if op == 'operator()':
             o = self.ev(args[0])
+            if isinstance(o, LamV):
+                return self.call_lambda(o, args[1:], n)
             if isinstance(o, AV) and len(args) == 2:
                 return self.element(o, self.ev(args[1]), n, args[0])
             if isinstance(o, MV) and len(args) == 3:
@@ -779,6 +827,43 @@ class EigWP(IdEnvWP):
             return r
         return None
 
+    def call_lambda(self, lam, args, node):
+        """inline a call of a local lambda: parameters (default arguments from the lambda's own declaration) are bound in a copy of the
+        caller's environment, the body must end in its only return, nothing the body declares or assigns survives"""
+        m = astload.lambda_call_operator(lam.node)
+        if m is None:
+            raise Unsupported(f'{self.name}: lambda without a call operator')
+        params = [c for c in m['inner'] if c['kind'] == 'ParmVarDecl']
+        env0 = dict(self.env)
+        for k, p in enumerate(params):
+            if k < len(args) and unwrap(args[k]).get('kind') != 'CXXDefaultArgExpr':
+                v = self.ev(args[k])
+            else:
+                dflt = [x for x in p.get('inner', []) if x.get('kind') != 'FullComment']
+                if not dflt:
+                    raise Unsupported(f'{self.name}: lambda called without argument {k} and no default')
+                v = self.ev(dflt[0])
+            s_, c_ = self.sort_of(p['type'])
+            self.env[p['name']] = self.conv(v, s_, c_)
+        body = [c for c in m['inner'] if c['kind'] == 'CompoundStmt'][0]
+        saved = (self.post, self.ret_sort, self.returns, self.guard)
+        got = []
+        self.post = lambda w, rv: (got.append((w.guard, rv)), [])[1]
+        self.ret_sort = None
+        written0 = set(getattr(self, 'written', set()))
+        self.ex(body)
+        self.post, self.ret_sort, self.returns, g0 = saved
+        if len(got) != 1 or got[0][0] != g0 or got[0][1] is None:
+            raise Unsupported(f'{self.name}: lambda body does not end in its single return')
+        if set(getattr(self, 'written', set())) != written0:
+            raise Unsupported(f'{self.name}: lambda writes an array')
+        local = {x['name'] for x in astload.walk(body) if x.get('kind') == 'VarDecl'} | {p['name'] for p in params}
+        for k in self.assigned_scalars(body) - local:
+            raise Unsupported(f'{self.name}: lambda assigns the captured variable {k}')
+        self.env = env0
+        self.guard = g0
+        return got[0][1]
+
     def is_array_scalar_assign(self, n):
         return 'ArrayWrapper' in type_str(n['inner'][1]) or 'ArrayBase' in type_str(n['inner'][1])
 
@@ -839,7 +924,11 @@ class EigWP(IdEnvWP):
     def assign(self, lhs, v):
         u = unwrap(lhs)
         if u.get('kind') == 'CXXOperatorCallExpr' and unwrap(u['inner'][0]).get('referencedDecl', {}).get('name') == 'operator()' and len(u['inner']) == 3:
-            key = self.key_of(u['inner'][1])
+            tgt = unwrap(u['inner'][1])
+            if tgt.get('kind') == 'CXXMemberCallExpr' and tgt['inner'][0].get('name') == 'full':
+                self.ev(tgt)                                  # a.full(s)(k) = v: the fill happens first, `full` returns the tensor itself
+                tgt = tgt['inner'][0]['inner'][0]
+            key = self.key_of(tgt)
             arr = self.env.get(key)
             if isinstance(arr, AV):
                 idx = self.ev(u['inner'][2])
